@@ -203,6 +203,12 @@ class Ob:
         return self.r
 
 
+class StatePath:
+    """a state wrapped so that prove()/describe_path() accept it like an explored Path"""
+    def __init__(self, st, ret=None):
+        self.st, self.pc, self.trace, self.kind, self.ret, self.msg = st, st.pc, st.trace, 'state', ret, None
+
+
 def describe_path(eng, p):
     """A path witness: which environment call returned what, in order, plus the final result."""
     steps = []
